@@ -43,6 +43,15 @@ Fixpoint bytes_eqb (a b : bytes) : bool :=
 Definition copy_into (n : nat) (src : bytes) : bytes :=
   firstn n src ++ repeat 0 (n - length src).
 
+(** How a passphrase enters scrypt: scrypt.Key = PBKDF2-HMAC-SHA256, and
+    HMAC turns its key into one 64-byte block - keys longer than the block
+    are replaced by their SHA-256, shorter ones are padded with zero bytes.
+    Passphrases with the same block are the same passphrase to scrypt (so
+    "pw" and "pw\000" derive the same key: finding recorded for C17). *)
+Definition HmacBlock : nat := 64.
+Definition hmac_key_block (hash : bytes -> bytes) (pw : bytes) : bytes :=
+  copy_into HmacBlock (if (HmacBlock <? length pw)%nat then hash pw else pw).
+
 (** binary.LittleEndian.PutUint64 / Uint64 (general in the width). *)
 Fixpoint le_bytes (n : nat) (v : N) : bytes :=
   match n with
@@ -237,11 +246,18 @@ Definition law_seal_no_near (seal : bytes -> bytes -> bytes -> bytes) : Prop :=
 Definition law_seal_no_prefix (seal : bytes -> bytes -> bytes -> bytes) : Prop :=
   forall k n m m' t, (t < length (seal k n m))%nat ->
     seal k n m' <> firstn t (seal k n m).
-(** the kdf is collision-free over everything it is given ... *)
-Definition law_kdf_inj (kdf : bytes -> bytes -> Z -> Z -> Z -> option bytes) : Prop :=
+(** the kdf is collision-free over everything it is given - the passphrase
+    counted as its HMAC key block ... *)
+Definition law_kdf_inj (kdf : bytes -> bytes -> Z -> Z -> Z -> option bytes)
+    (hash : bytes -> bytes) : Prop :=
   forall pw s n r p pw' s' n' r' p' k,
     kdf pw s n r p = Some k -> kdf pw' s' n' r' p' = Some k ->
-    pw = pw' /\ s = s' /\ n = n' /\ r = r' /\ p = p'.
+    hmac_key_block hash pw = hmac_key_block hash pw' /\ s = s' /\ n = n' /\ r = r' /\ p = p'.
+(** ... through which alone the passphrase enters (exact for PBKDF2-HMAC) ... *)
+Definition law_kdf_hmac (kdf : bytes -> bytes -> Z -> Z -> Z -> option bytes)
+    (hash : bytes -> bytes) : Prop :=
+  forall pw pw' s n r p,
+    hmac_key_block hash pw = hmac_key_block hash pw' -> kdf pw s n r p = kdf pw' s n r p.
 (** ... and whether it returns a key depends on (N, r, p) only (exact for
     scrypt.Key). *)
 Definition law_kdf_domain (kdf : bytes -> bytes -> Z -> Z -> Z -> option bytes) : Prop :=
@@ -254,8 +270,8 @@ Definition law_hash_inj (hash : bytes -> bytes) : Prop :=
     The toy box spells out key, nonce and message (the message twice), so
     every ideal law above holds for it literally; it is at least as long as
     a real box (16 + |m|), so every tampering position of a real ciphertext
-    exists in the toy one.  The toy kdf spells out all of its inputs; the
-    toy hash is the identity. *)
+    exists in the toy one.  The toy kdf spells out all of its inputs (the passphrase
+    as its HMAC key block); the toy hash is the identity. *)
 Definition lp (l : bytes) : bytes := N.of_nat (length l) :: l.
 Definition toy_seal (k n m : bytes) : bytes := lp k ++ lp n ++ lp m ++ m.
 Definition toy_extract (k n c : bytes) : bytes :=
@@ -283,21 +299,23 @@ Definition scrypt_class (n r p : Z) : N :=
   else 0.
 
 Definition encZ (z : Z) : bytes := [Z.abs_N z; if (z <? 0)%Z then 1 else 0].
-Definition toy_kdf_long (pw s : bytes) (n r p : Z) : bytes :=
-  repeat 0 33 ++ lp pw ++ lp s ++ encZ n ++ encZ r ++ encZ p.
+Definition toy_kdf_long (blk s : bytes) (n r p : Z) : bytes :=
+  repeat 0 33 ++ lp blk ++ lp s ++ encZ n ++ encZ r ++ encZ p.
 (** One input class is mapped to 32-byte keys (the salt itself), so that a
     toy key with a 32-byte digest exists (the 88-byte layout applies). *)
-Definition toy_kdf_short (pw s : bytes) (n r p : Z) : bool :=
-  match pw with [] => true | _ => false end
+Definition toy_kdf_short (blk s : bytes) (n r p : Z) : bool :=
+  bytes_eqb blk (repeat 0 HmacBlock)
   && (n =? 2)%Z && (r =? 1)%Z && (p =? 1)%Z && (length s =? 32)%nat.
-Definition toy_kdf (pw s : bytes) (n r p : Z) : option bytes :=
+(** The passphrase enters through its HMAC key block under [h] only. *)
+Definition toy_kdf (h : bytes -> bytes) (pw s : bytes) (n r p : Z) : option bytes :=
+  let blk := hmac_key_block h pw in
   if scrypt_class n r p =? 0 then
-    if toy_kdf_short pw s n r p then Some s else Some (toy_kdf_long pw s n r p)
+    if toy_kdf_short blk s n r p then Some s else Some (toy_kdf_long blk s n r p)
   else None.
 Definition toy_hash (k : bytes) : bytes := k.
 
 Definition t_encrypt_with := encrypt_with toy_seal.
 Definition t_decrypt := decrypt toy_open.
-Definition t_new_secret_key := new_secret_key toy_kdf toy_hash.
-Definition t_derive_key := derive_key toy_kdf toy_hash.
+Definition t_new_secret_key := new_secret_key (toy_kdf toy_hash) toy_hash.
+Definition t_derive_key := derive_key (toy_kdf toy_hash) toy_hash.
 Definition t_mgr_decrypt := mgr_decrypt toy_open.
